@@ -439,6 +439,52 @@ def pool(R, ctx, rid_override=None, only=None):
                  "declaration renamed to `%s`, recorded as %s (expected `%s`, reusable) %s" % (cell["v"], rec, want, why[:1] if not ok else ""))
 
 
+def distinct_names(R, ctx):
+    """Names drawn for simultaneously live declarations are pairwise distinct (the real generator, not a stub)."""
+    from .. import peval
+    from ..peval import Ref, Iter
+    rid = "C09.distinct"
+    lib = ctx.lib
+    R.rule(rid, "the renamer built by its public constructor (its own character permutator, its own avoid set seeded with a global and the "
+                "keywords), evaluated from its typed tree: 3 000 declarations inserted into one scope without any scope being closed (so no "
+                "name is ever released) receive 3 000 pairwise distinct names, none of them a keyword, the avoided global, or starting with a "
+                "digit -- the sequence passes the roll-over from 1 to 2 characters, the block of digit-leading one-character candidates and "
+                "every second-character roll-over; two live locals with one name would capture each other's references")
+    news = [f for k, f in lib.fns.items() if k.startswith(RP + "::") and k.endswith("::new") and thir.body_of(f)]
+    ins, push = lib.fn(SCOPE_IMPL + "insert"), lib.fn(SCOPE_IMPL + "push")
+    if not R.require(rid, "anchor:constructor", len(news) == 1 and ins is not None and push is not None, "", "RenameProcessor::new / Scope::insert / push not found"):
+        return
+    N_NAMES = 3000
+    pe = peval.PEval(lib, ctx.an, fuel=60000000)
+    names, why = [], None
+    try:
+        rp = pe.call_fn(news[0], [Iter(["b"]), False])
+        pe.call_fn(push, [rp])
+        for i in range(N_NAMES):
+            cell = {"v": "original_%d" % i}
+            pe.call_fn(ins, [rp, Ref(cell, "v")])
+            names.append(cell["v"])
+    except peval.OutOfFuel:
+        why = "no termination"
+    bad = None
+    seen = {}
+    kw = {"and", "break", "do", "else", "elseif", "end", "false", "for", "function", "if", "in", "local", "nil", "not", "or", "repeat", "return", "then", "true", "until", "while"}
+    for i, nm in enumerate(names):
+        if not isinstance(nm, str) or not nm or nm.startswith("original_"):
+            bad = "declaration #%d was not renamed (%r) %s" % (i, nm, pe.unknown_reasons[:2])
+            break
+        if nm in seen:
+            bad = "declarations #%d and #%d are both live and both renamed to `%s`" % (seen[nm], i, nm)
+            break
+        if nm in kw or nm == "b" or nm[0].isdigit():
+            bad = "declaration #%d renamed to `%s` (keyword / avoided global / digit first)" % (i, nm)
+            break
+        seen[nm] = i
+    if bad is None and (why or len(names) < N_NAMES):
+        bad = "not established: %s" % (why or pe.unknown_reasons[:2])
+    R.ob(rid, "live-names-pairwise-distinct", bad is None, ctx.where(ins), "%d names, all distinct (last `%s`)" % (len(names), names[-1] if names else "") if bad is None else bad)
+
+
 def globals_monotone(R, ctx):
     rid = "C09.globals"
     lib = ctx.lib
@@ -493,3 +539,4 @@ def run(R, ctx):
     fresh(R, ctx)
     pool(R, ctx)
     globals_monotone(R, ctx)
+    distinct_names(R, ctx)
